@@ -1110,6 +1110,20 @@ def run_ext(case, obs, rng, fail):
     co2 = [rng.randint(-4, 4), rng.randint(-3, 3), rng.randint(-2, 2)] if cplx else [0, 0, 0]
     v = [sum(c * j ** k for k, c in enumerate(co)) for j in range(L)]
     w = [sum(c * j ** k for k, c in enumerate(co2)) for j in range(L)]
+    if np.dtype(npdt).kind in "iu":
+        # the samples must be representable in the storage kind (129 does not fit int8: the stored numbers would not be
+        # the quadratic any more - an artefact of this probe, found with seed 6): shorten the line until they are
+        info = np.iinfo(npdt)
+        while L > 3 and not all(info.min <= x <= info.max for x in v[:L]):
+            L -= 1
+        v, w = v[:L], w[:L]
+        if not all(info.min <= x <= info.max for x in v):
+            obs["tags"].append("dtype-probe-skipped:not-representable")
+            L = 0
+    if L == 0:
+        obs["tags"] += [f"dtype:{dt}", f"order:{order}", f"restrict:{restrict}"]
+        obs["nontrivial"] = max(mesh.n) > order
+        return
     m1 = df.Mesh(p1=0.0, p2=float(L * hq), n=L)
     pv = (np.array(v) + 1j * np.array(w)).astype(npdt) if cplx else np.array(v).astype(npdt)
     gp = df.Field(m1, nvdim=1, value=pv.reshape(L, 1), dtype=npdt).diff("x", order=order)
